@@ -37,6 +37,18 @@ Splits(name) ==
         \* the configuration as a whole has no list element nobody defines
         /\ DenseLists({ls[i] : i \in {j \in 1..n : s[j] # "N"}})}
 
+(* the list of more than ten elements: the first ten elements come from one side, the last two and *)
+(* the sibling vary                                                                                 *)
+SplitsLong ==
+  LET ls == ShapeClass("long-list") IN
+  {s \in {[i \in 1..13 |-> IF i <= 10 THEN h ELSE IF i = 11 THEN a ELSE IF i = 12 THEN b ELSE c] :
+             h \in {"F", "E"}, a \in {"F", "E", "B", "N"}, b \in {"F", "E", "B", "N"}, c \in {"F", "E"}} :
+     /\ DenseLists({ls[i] : i \in {j \in 1..13 : s[j] \in {"F", "B"}}})
+     /\ DenseLists({ls[i] : i \in {j \in 1..13 : s[j] # "N"}})}
+
+RECURSIVE RandOrder(_)
+RandOrder(S) == IF S = {} THEN <<>> ELSE LET x == RandomElement(S) IN <<x>> \o RandOrder(S \ {x})
+
 Perms(E) == LET k == Cardinality(E) IN
             {f \in [1..k -> E] : \A i \in 1..k, j \in 1..k : f[i] = f[j] => i = j}
 
@@ -46,6 +58,7 @@ Pick(S, k) == IF k = 0 \/ S = {} THEN <<>>
 
 OrdersFor(E) ==
   IF E = {} THEN << <<>> >>
+  ELSE IF Cardinality(E) > 6 THEN <<RandOrder(E), RandOrder(E)>>   \* too many to build the set of permutations
   ELSE IF Cardinality(E) <= AllPermsUpTo THEN SetToSeq(Perms(E))
   ELSE Pick(Perms(E), PermsAbove)
 
@@ -57,10 +70,11 @@ CasesForSplit(name, s) ==
   IN [k \in 1..Len(os) |-> [shape |-> name, src |-> s, order |-> os[k], paths |-> ShapeClass(name)]]
 
 CasesOf(name) ==
-  LET ss == SetToSeq(Splits(name))
+  LET ss == SetToSeq(IF name = "long-list" THEN SplitsLong ELSE Splits(name))
   IN FlattenSeq([i \in 1..Len(ss) |-> CasesForSplit(name, ss[i])])
 
-All == FlattenSeq([i \in 1..Len(ShapeNames) |-> CasesOf(ShapeNames[i])])
+GenShapes == ShapeNames \o <<"long-list">>
+All == FlattenSeq([i \in 1..Len(GenShapes) |-> CasesOf(GenShapes[i])])
 
 ASSUME LET cs == All IN
   /\ ndJsonSerialize(OutFile, cs)
